@@ -68,6 +68,23 @@ CLAIMED['C13'] = ('Lexis.tla (lexer, writer, Norm, renderer escaping over charac
                   'renderer at every text-bearing site; the SQL literal clause is decided by the SQL checks',
                   'trusted: TLC, fixed host documents in pv/c13.py; alphabet and length bound limit the universal quantifier',
                   'DESIGN.md 2.7, 4.5, 5 (C13)')
+SQLNOTE = 'trusted: TLC, the DDL reader pv/ddl.py (independent of PyDBML, refuses what it cannot read), pv/builder.py, pv/project.py'
+CLAIMED['C03'] = ('SqlExec!ExpectedCatalog(model) vs the statements an independent DDL reader reads from db.sql, executed in order on the '
+                  'catalog machine of SqlExec.tla (TraceSql.tla); models generated by TLC, databases parsed and API-built',
+                  'SQL is treated as a program: every statement must be enabled when it runs (CREATE INDEX / COMMENT ON name the table as '
+                  'created) and the final catalog must equal the expected one -- nothing else, everything once',
+                  SQLNOTE, 'DESIGN.md 2.6, 5 (C03)')
+CLAIMED['C04'] = ('SqlExec!ExpFks / ExpJoinTables vs the FOREIGN KEY clauses and ALTER TABLE statements read back from db.sql; exactly-once '
+                  'by counting; TraceSql.tla',
+                  'direction, column order on both sides, constraint name, actions, inline-vs-ALTER and the many-to-many join table are '
+                  'computed by the specification from the model and compared with what the script states and can execute',
+                  SQLNOTE, 'DESIGN.md 2.6, 5 (C04)')
+CLAIMED['C18'] = ('enabledness of SqlExec CreateTable (inline FOREIGN KEY targets created earlier) on the statement sequence read back from '
+                  'db.sql, for acyclic inline graphs; determinism across interpreters and hash seeds; as-built order predicted exactly by '
+                  'SqlExec!AsBuiltOrder (known finding F-C18)',
+                  'the property is not a special rule but the enabling condition of a catalog action; the pinned as-built heuristic is a named '
+                  'deviation whose predicted order must be matched exactly, so any other misplacement is reported',
+                  SQLNOTE, 'DESIGN.md 2.6, 5 (C18), 7')
 NOT_YET = {}
 
 def main():
